@@ -2,7 +2,7 @@ use std::iter::FromIterator;
 
 use crate::key::Key;
 use crate::repr::Decor;
-use crate::table::{Iter, IterMut, KeyValuePairs, TableLike};
+use crate::table::{remove_placeholder, Iter, IterMut, KeyValuePairs, TableLike};
 use crate::{InternalString, Item, KeyMut, RawString, Table, Value};
 
 /// A TOML [`Value`] that contains a collection of [`Key`]/[`Value`] pairs
@@ -291,7 +291,9 @@ impl InlineTable {
 
     /// Gets the given key's corresponding entry in the Table for in-place manipulation.
     pub fn entry(&'_ mut self, key: impl Into<InternalString>) -> InlineEntry<'_> {
-        match self.items.entry(key.into().into()) {
+        let key = key.into();
+        remove_placeholder(&mut self.items, &key);
+        match self.items.entry(key.into()) {
             indexmap::map::Entry::Occupied(mut entry) => {
                 // Ensure it is a `Value` to simplify `InlineOccupiedEntry`'s code.
                 let scratch = std::mem::take(entry.get_mut());
@@ -312,6 +314,7 @@ impl InlineTable {
 
     /// Gets the given key's corresponding entry in the Table for in-place manipulation.
     pub fn entry_format<'a>(&'a mut self, key: &Key) -> InlineEntry<'a> {
+        remove_placeholder(&mut self.items, key.get());
         // Accept a `&Key` to be consistent with `entry`
         match self.items.entry(key.clone()) {
             indexmap::map::Entry::Occupied(mut entry) => {
@@ -383,6 +386,7 @@ impl InlineTable {
         value: V,
     ) -> &mut Value {
         let key = key.into();
+        remove_placeholder(&mut self.items, &key);
         self.items
             .entry(Key::new(key))
             .or_insert(Item::Value(value.into()))
@@ -394,6 +398,7 @@ impl InlineTable {
     pub fn insert(&mut self, key: impl Into<InternalString>, value: Value) -> Option<Value> {
         use indexmap::map::MutableEntryKey;
         let key = Key::new(key);
+        remove_placeholder(&mut self.items, key.get());
         let value = Item::Value(value);
         match self.items.entry(key.clone()) {
             indexmap::map::Entry::Occupied(mut entry) => {
@@ -411,6 +416,7 @@ impl InlineTable {
     /// Inserts a key-value pair into the map.
     pub fn insert_formatted(&mut self, key: &Key, value: Value) -> Option<Value> {
         use indexmap::map::MutableEntryKey;
+        remove_placeholder(&mut self.items, key.get());
         let value = Item::Value(value);
         match self.items.entry(key.clone()) {
             indexmap::map::Entry::Occupied(mut entry) => {
